@@ -8,26 +8,264 @@ TRUSTED = [
     "Go standard library behaviour (bytes.Buffer, encoding/binary, io.ReadFull, hash/crc32, sync.RWMutex, maps) and the harness's reflection walker",
 ]
 
+# result lines are `class | field1 | field2`; a property lists the fields it depends on
 ENC_ALL = {"enc": [0, 1, 2], "wop": [0, 1, 2]}
+ENC_BYTES = {"enc": [0, 1], "wop": [0, 1]}
+ENC_CLASS = {"enc": [0], "wop": [0]}
 DEC_ALL = {"dec": [0, 1, 2], "rop": [0, 1, 2]}
 DEC_CONSUME = {"dec": [0, 1], "rop": [0, 1]}
 DEC_CLASS = {"dec": [0], "rop": [0]}
+OTHER = {"cks": [0, 1], "cksrep": [0, 1], "reg": [0, 1], "lookup": [0, 1], "zero": [0, 1]}
+
+VALUES = ("type-directed values of all 170 types: scalars {0,1,max,sign bit,non-palindromic,NaN payloads,random}; text {empty,short,"
+          "exact width,over-long,interior/leading/trailing pad,NUL,>=0x80,multi-byte runes at the cut}; lists {0,1,2,random,255,256,16384"
+          "[,65535]}; every one of the 226 discriminator keys; buffer histories {empty, prior content, earlier frames, consumed prefix, "
+          "no spare capacity, stale spare capacity}. ")
 
 PROPS = {
     "C01": {
         "theorems": [],
         "aspects": {**ENC_ALL, **DEC_ALL},
-        "rule": "type-directed canonical values of all 170 types (scalars {0,1,max,sign bit,non-palindromic,NaN payloads,random}; "
-                "text {empty,short,exact width, interior/other-side pad, NUL, >=0x80}; lists {0,1,2,random,255,256,16384[,65535]}), every one of the "
-                "226 discriminator keys, random prior buffer content / consumed prefix / stale spare capacity; each value is encoded by the real "
-                "library and by the model, the produced bytes (+ random trailing bytes) are decoded by both. distinct = (type, outcome class, "
-                "length class, buffer history); non-trivial = the message has at least one field.",
+        "rule": VALUES + "Each canonical value is encoded by the real library and by the model, the produced bytes (+ random trailing "
+                "bytes) are decoded by both. distinct = (type, outcome class, length class, buffer history); non-trivial = the message has at "
+                "least one field.",
         "assumptions": ["canonical domain as stated in the property; absent and empty lists are identified"],
     },
+    "C02": {
+        "theorems": [],
+        "aspects": {"penc": [0, 1], "pdec": [0, 1, 2]},
+        "oracle": True,   # a disagreement with the pinned-schema renderer IS a failing input (the oracle is the spec)
+        "rule": VALUES + "Library bytes vs Spec.render of the committed Pinned schema (canonical AND non-canonical values); library decode vs "
+                "decode under Pinned of the produced bytes with trailing data and of mutated encodings. distinct = (type, outcome, length class).",
+        "assumptions": ["Pinned.lean is a reviewed snapshot of the pinned commit (the .pdsl sources are not in the tree): a layout error already "
+                        "present in the generator's output at that commit is invisible to this property"],
+    },
+    "C03": {
+        "theorems": ["FinProto.Obl.C03_messages", "FinProto.Obl.C03_no_unrecognised_statement", "FinProto.Obl.C03_scalar", "FinProto.toE_le_eq_reverse_be", "FinProto.writeNums_ok", "FinProto.writeVstr_ok", "FinProto.writeFixeds_ok", "FinProto.writeVstrs_ok", "FinProto.writeNums_le_be", "FinProto.writeVstr_le_be", "FinProto.writeFixeds_le_be", "FinProto.writeVstrs_le_be"],
+        "aspects": {**ENC_BYTES, **DEC_ALL},
+        "rule": "every BE/LE primitive pair x prefix widths {1,2,4,8} x element kinds {u8..u64,i8..i64,f32,f64 and NAMED numeric types} x "
+                "values with counts >= 2 and lengths >= 256 (count 1 and palindromic values cannot see byte order); the LE bytes must be the BE "
+                "bytes with each integer reversed; plus messages of all types vs the model. distinct = (op, kind, outcome, length class).",
+    },
+    "C04": {
+        "theorems": ["FinProto.Obl.C04_frames_recognised", "FinProto.Obl.C04_repo", "FinProto.Obl.C04_shape", "FinProto.frame_len_exact", "FinProto.frame_shape", "FinProto.patch_mid", "FinProto.Obl.gen_mirrorOK"],
+        "aspects": {**ENC_ALL},
+        "rule": "the 4 self-measuring frames x every body type of their tables x {stale length/checksum, absent body, unregistered key} x "
+                "bodies of 30/120/300 elements (> 1 KiB: the buffer reallocates while the body is written) x buffer histories; the length on the "
+                "wire, the object's field and an independent count must agree; re-encode after a size-preserving change.",
+    },
+    "C05": {
+        "theorems": ["FinProto.Obl.C05_frames_recognised", "FinProto.Obl.C05_repo", "FinProto.frame_cks_exact", "FinProto.frame_shape", "FinProto.Obl.gen_mirrorOK"],
+        "aspects": {**ENC_ALL},
+        "rule": "as C04 for the 3 checksummed frames; the trailer and the object's field must equal an independent byte sum / bitwise CRC-32 of "
+                "exactly this frame's bytes (corrected length included, earlier buffer content excluded), incl. frames > 1 KiB of heavy bytes.",
+    },
+    "C06": {
+        "theorems": ["FinProto.Obl.C06_no_unrecognised_statement", "FinProto.Obl.C06_mirror", "FinProto.Obl.C06_ctxFree", "FinProto.Obl.C06_append_only", "FinProto.Obl.C06_context_free", "FinProto.Obl.C06_idempotent", "FinProto.Obl.C06_concat", "FinProto.ctxFree_encTy", "FinProto.enc_idempotent", "FinProto.enc_concat"],
+        "aspects": {**ENC_ALL},
+        "rule": VALUES + "every type, shuffled so that messages with different pad bytes / algorithms follow each other in one process; "
+                "appended bytes == encoding into an empty buffer; prior bytes untouched; encode again == same; one object twice into one "
+                "buffer; a 400-message sequence into one partially consumed buffer == concatenation.",
+    },
+    "C07": {
+        "theorems": [],
+        "aspects": {**DEC_ALL},
+        "rule": VALUES + "each encoding followed by {0, 1..15, 16..80} arbitrary bytes: consumed == message length, rest untouched; a stream "
+                "of mixed messages recovered by successive decodes from one buffer.",
+    },
+    "C08": {
+        "theorems": [],
+        "aspects": {**DEC_ALL, **ENC_ALL},
+        "rule": "valid encodings of all types with pad/NUL/space/0xFF/random bytes sprinkled over them (accepted byte strings the encoder "
+                "would not produce); every accepted one is re-encoded and compared with the consumed bytes (frames: length/checksum "
+                "fields may only be replaced by their correct values).",
+    },
+    "C09": {
+        "theorems": ["FinProto.Obl.C09_widths", "FinProto.Obl.C09_elems", "FinProto.Obl.C09_no_unrecognised_statement", "FinProto.Obl.C09_no_panic", "FinProto.dec_no_panic", "FinProto.dec_ok_or_err"],
+        "aspects": {**DEC_CLASS},
+        "rule": "malformed stream into all 170 decoders: bit flips, random windows, pad sprinkles, truncations (every cut in the first 24 and last "
+                "12 bytes), 0xFF windows, random bytes, maximal length/count prefixes followed by 0/1/3/40 bytes; outcome class compared with "
+                "the model's; panics and hangs (20 s watchdog) are violations.",
+        "assumptions": ["a Go runtime abort that is not a panic (out-of-memory kill) is C10's subject"],
+    },
+    "C10": {
+        "theorems": [],
+        "aspects": {**DEC_CLASS},
+        "rule": "hostile short inputs (every length/count prefix of a valid encoding set to 0xFFFFFFFF/0x7FFFFFFF/0x04000000/0xFFF0/0x8000, "
+                "followed by 0/1/3/40 bytes) x buffers {exact, 1 MiB stale spare capacity, consumed prefix}; runtime.MemStats.TotalAlloc "
+                "delta of the Decode call must stay below 8192 + 64*len(input).",
+        "assumptions": ["the model counts requested bytes; the Go allocator's rounding and GC are outside it"],
+    },
+    "C11": {
+        "theorems": [],
+        "aspects": {**DEC_CLASS},
+        "rule": "every cut position 0..len-1 of valid encodings of all types and all keys (sampled for encodings > 600 bytes in the quick tier), "
+                "in exact buffers and in reused receive buffers whose spare capacity holds stale bytes.",
+    },
+    "C12": {
+        "theorems": ["FinProto.Obl.C12_tables", "FinProto.Obl.C12_types", "FinProto.Obl.C12_mirror", "FinProto.Obl.C12_refs", "FinProto.Obl.C12_dec_builds_table_type", "FinProto.Obl.C12_dec_unknown_is_error", "FinProto.dec_union_ok", "FinProto.dec_union_unknown", "FinProto.enc_union_nil", "FinProto.lookup_last_wins", "FinProto.decTy_ok_msg"],
+        "aspects": {**ENC_ALL, **DEC_ALL, **OTHER},
+        "rule": "all 18 tables x all 226 registered keys (decode builds the pinned type; encoder fills in the same type for an absent body; "
+                "round trip) x unregistered keys (key+-1, shifted, random; text keys with one byte replaced by : / ; 0 9 A space NUL +-1 +-10, "
+                "digit-arithmetic aliases, trimmed/lower-cased) decoded four times through fresh and reused receivers.",
+    },
+    "C13": {
+        "theorems": ["FinProto.writeFixed_length", "FinProto.writeFixed_long", "FinProto.writeFixed_exact", "FinProto.writeFixed_short_left", "FinProto.writeFixed_short_right", "FinProto.trimL_spec", "FinProto.trimR_spec", "FinProto.readFixed_eq", "FinProto.trim_writeFixed", "FinProto.writeFixed_trim", "FinProto.writeFixeds_ok", "FinProto.readFixeds_writeFixeds"],
+        "aspects": {**ENC_BYTES, **DEC_ALL},
+        "rule": "N in 0..40 x pad bytes {space,'0',NUL,0xE9,0x80,0xFF,'A',0xC3,0xA9,random} x both sides x text generator (incl. multi-byte "
+                "runes); reads of arbitrary N-byte fields; exhaustive for N<=2 over strings of length <=2 (<=3 thorough) over {pad,'a',NUL,0xC3}.",
+    },
+    "C14": {
+        "theorems": ["FinProto.sseGo_eq", "FinProto.sseGo_lt", "FinProto.szseGo_eq", "FinProto.szseGo_lt", "FinProto.crc16Go_eq_modbus", "FinProto.crc32Go_eq_ieee"],
+        "aspects": {**OTHER},
+        "rule": "4 algorithms x all byte strings of length <= 2 against independent references (<= 3 in the thorough tier), random lengths to "
+                "70 KB incl. all-high-bit bytes, runs of one byte up to 8,421,760 (33 MiB thorough), buffer unchanged and result repeatable, "
+                "same backing array and length with new contents.",
+        "assumptions": ["CRC-32: the Go body is a call into hash/crc32; the model is the bitwise reference and the tie is this differential run"],
+    },
+    "C15": {
+        "theorems": ["FinProto.Obl.C15_fields_assigned", "FinProto.Obl.C15_repo", "FinProto.Obl.C15_plain", "FinProto.decTyR_eq", "FinProto.dec_receiver_irrelevant"],
+        "aspects": {**DEC_ALL},
+        "rule": "every type: bytes decoded into receivers that hold a larger earlier message / an earlier successful decode / a decode that "
+                "failed half way / a truncated decode of the same bytes, compared with a fresh receiver and with the model.",
+    },
+    "C16": {
+        "theorems": [],
+        "aspects": {**ENC_ALL},
+        "rule": "every type: decode from a harness-owned slice, snapshot, overwrite the whole backing array and reuse the buffer; mutate and "
+                "append to every list/text/nested part of the decoded message and compare the source bytes; encode, mutate the message, "
+                "compare the written bytes; long texts (>= 64 bytes) and lists of 12.",
+        "assumptions": ["the Lean model has no addresses: the theorem is about value semantics, the facts and this dynamic run carry the aliasing part"],
+    },
+    "C17": {
+        "theorems": ["FinProto.Obl.C17_guards", "FinProto.Obl.C17_repo", "FinProto.enc_no_panic", "FinProto.enc_no_panic_of_mirrorOK"],
+        "aspects": {**ENC_CLASS},
+        "rule": "every type: zero value, constructor result, random non-canonical values, values with nil in half of the pointer/interface "
+                "fields, multi-byte text in every text field, absent body with each registered and 8 unregistered keys; outcome class vs model.",
+    },
+    "C18": {
+        "theorems": ["FinProto.Obl.C18_no_unrecognised_statement", "FinProto.writeLen_ok", "FinProto.writeLen_err", "FinProto.writeVstr_err", "FinProto.writeList_err", "FinProto.writeNums_err", "FinProto.writeFixeds_err", "FinProto.writeVstrs_err", "FinProto.writeVstrs_err_elem", "FinProto.readVstr_writeVstr", "FinProto.readNums_writeNums", "FinProto.readFixeds_writeFixeds", "FinProto.readVstrs_writeVstrs"],
+        "aspects": {**ENC_BYTES, **DEC_ALL},
+        "rule": "every prefixed primitive x prefix widths {1,2} x lengths {max-1,max,max+1,max+2,2max+1,2max+2,max+4} x both byte orders x "
+                "element kinds {u8,u32,NamedU8,i16}; an over-long element inside a string list; every message field with an 8/16-bit prefix at "
+                "and beyond the limit (32-bit boundaries by theorem only).",
+    },
+    "C19": {
+        "theorems": ["FinProto.Reg.mutual_exclusion", "FinProto.Reg.write_needs_lock", "FinProto.Reg.linearizable", "FinProto.Reg.real_time_order", "FinProto.Reg.ret_before_inv_lin", "FinProto.Reg.thread_projection", "FinProto.Reg.reg_winner_unique", "FinProto.Reg.reg_winner_unique_run", "FinProto.Reg.get_after_reg", "FinProto.Reg.reg_fails_when_present", "FinProto.Reg.get_right_name"],
+        "race": True,
+        "aspects": {**OTHER},
+        "rule": "sequential histories of 1..14 Registry/Get/Remove/Clear calls over 3 names vs the model's map specification; concurrent "
+                "histories (4-5 goroutines x 6-7 calls over 2 names) recorded and checked for linearizability with porcupine; 8 goroutines "
+                "registering one fresh name at once (exactly one winner, look-up returns it); 8 goroutines looking up two names; all under the "
+                "race detector.",
+        "assumptions": ["sync.RWMutex provides the modelled exclusion and the Go memory model's happens-before edges"],
+    },
+    "C20": {
+        "theorems": ["FinProto.Obl.C20_repo", "FinProto.Par.par_eq_seq", "FinProto.Par.sched_irrelevant", "FinProto.Par.workers_par_eq_seq"],
+        "race": True,
+        "aspects": {**ENC_ALL},
+        "rule": "all types (3-20 values each, mixed protocols, pad bytes and checksum algorithms) encoded and decoded by 16 goroutines on "
+                "their own objects and buffers, in different orders, compared with the sequential results; under the race detector.",
+        "assumptions": ["the Go memory model; the theorem and the effect inventory say there is nothing shared to race on"],
+    },
 }
-for i in range(2, 21):
-    PROPS.setdefault("C%02d" % i, {"theorems": [], "aspects": {}, "suite": False})
+
+
+
+LOCK_PROGS = {
+    "Registry": ["Lock", "defer Unlock", "map-load", "return", "map-store", "return", "return"],
+    "Get": ["RLock", "defer RUnlock", "map-load", "return", "return"],
+    "Remove": ["Lock", "defer Unlock", "map-delete"],
+    "Clear": ["Lock", "defer Unlock", "map-replace"],
+}
+PREFIX_WRITERS = ["WriteBasicTypeList", "WriteBasicTypeListLE", "WriteString", "WriteStringLE", "WriteFixedStringListWithPadding",
+                  "WriteFixedStringListWithPaddingLE", "WriteStringList", "WriteStringListLE", "WriteObjectList", "WriteObjectListLE"]
+REGISTRY_FUNCS = ("Registry", "Get", "Remove", "Clear", "init")
 
 
 def check_facts(pid, facts):
-    return []
+    """facts obligations of a property: list of (name, ok, detail); ok is True / False (recognised and contradicting the
+    expectation: breaks the obligation) / None (shape not recognised: left to the correspondence check, reported)."""
+    out = []
+    codec = facts.get("codec", {})
+    if not codec:
+        return [("facts-extracted", None, "no facts")]
+
+    def fn(name):
+        return codec.get(name)
+
+    if pid == "C03":
+        for name, f in sorted(codec.items()):
+            if not (name.startswith("Read") or name.startswith("Write")):
+                continue
+            le = name.endswith("LE")
+            want = "LittleEndian" if le else "BigEndian"
+            bad = [o for o in f["orders"] if o != want]
+            helpers = [c for c in f["callees"] if c in ("WriteBasicType", "ReadBasicType", "WriteBasicTypeLE", "ReadBasicTypeLE")]
+            badh = [c for c in helpers if c.endswith("LE") != le]
+            ok = not bad and not badh
+            out.append(("byte-order:" + name, True if ok else False, "orders=%s helpers=%s" % (f["orders"], helpers)))
+    if pid == "C10":
+        for name, f in sorted(codec.items()):
+            if not name.startswith("Read"):
+                continue
+            for m in f["makes"]:
+                if m.startswith("unguarded"):
+                    out.append(("alloc-guard:" + name, False, m))
+                elif m.startswith("unknown"):
+                    out.append(("alloc-guard:" + name, None, m))
+                else:
+                    out.append(("alloc-guard:" + name, True, m))
+            views = [v for v in f["buf_views"] if v in ("buf.Available", "buf.Cap", "buf.AvailableBuffer")]
+            if views:
+                out.append(("alloc-guard:" + name, False, "capacity-based bound %s (spare capacity is not input)" % views))
+    if pid == "C14":
+        for name, calls in sorted(facts.get("calc", {}).items()):
+            ok = set(calls) <= {"data.Bytes", "data.Len"}
+            out.append(("calc-pure:" + name, True if ok else False, "calls on the argument: %s" % calls))
+        for name, f in sorted(codec.items()):
+            if name.endswith(".Calc"):
+                out.append(("calc-stateless:" + name, False if f["uses_global"] else True, "package-level variables used: %s" % f["uses_global"]))
+    if pid == "C16":
+        for pkg, imps in sorted(facts.get("imports", {}).items()):
+            bad = [i for i in imps if i in ("unsafe", "reflect")]
+            out.append(("no-unsafe:" + pkg, False if bad else True, "imports %s" % bad))
+        for name, f in sorted(codec.items()):
+            if name.startswith("Read"):
+                views = [v for v in f["buf_views"] if v in ("buf.Bytes", "buf.Next", "buf.AvailableBuffer") or v.startswith("unsafe")]
+                out.append(("reader-copies:" + name, False if views else True, "views of the buffer's memory: %s" % views))
+    if pid == "C18":
+        for name in PREFIX_WRITERS:
+            f = fn(name)
+            if f is None:
+                out.append(("len-check:" + name, None, "function not found"))
+                continue
+            ok = "writeLen" in f["callees"] and not f["len_conv"]
+            out.append(("len-check:" + name, True if ok else False, "callees=%s unchecked=%s" % (f["callees"], f["len_conv"])))
+        f = fn("writeLen")
+        out.append(("len-check:writeLen", True if f is not None else None, "present" if f is not None else "missing"))
+    if pid == "C19":
+        for name, want in LOCK_PROGS.items():
+            got = facts.get("lock_progs", {}).get(name)
+            out.append(("lock-program:" + name, True if got == want else False, "%s" % got))
+    if pid in ("C20", "C06"):
+        for g in facts.get("globals", []):
+            writers = sorted({w["func"] for w in g["writes"]})
+            if g["pkg"] == "codec":
+                ok = set(writers) <= {"Registry", "Remove", "Clear"}
+            else:
+                ok = all(w.startswith("Registry") and w.endswith("Factory") for w in writers)
+            out.append(("global-writes:%s.%s" % (g["pkg"], g["name"]), True if ok else False, "written by %s" % writers))
+        for name, f in sorted(codec.items()):
+            if name in REGISTRY_FUNCS or name.split(".")[-1] == "Algorithm":
+                continue
+            if f["uses_global"]:
+                out.append(("stateless:" + name, False, "uses package-level %s" % f["uses_global"]))
+        out.append(("stateless:codec-primitives", True, "%d functions inspected" % len(codec)))
+    if pid == "C20":
+        for mut, callers in sorted(facts.get("callers_of_mutators", {}).items()):
+            ok = all(c.endswith(".init") for c in callers)
+            out.append(("mutator-callers:" + mut, True if ok else False, "called from %s" % callers))
+        gs = facts.get("go_statements") or []
+        out.append(("no-hidden-concurrency", False if gs else True, "%s" % gs))
+    return out
